@@ -173,29 +173,45 @@ class Ledger:
         if truth is None:
             return []
         local = op['place']['local']
-        for hop in range(4):
+        # the definition that was executed LAST on this path, looking through plain copies (each hop restricted to the part of
+        # the path before the copy): `let returned = opt.map_or(false, |d| d.pay(..)); if !returned {..}` after the combinator was
+        # spelled out has one assignment per arm and a copy after the join
+        upto = len(path)
+        for hop in range(8):
             defs = [x for x in b.assigns().get(local, []) if not x[4]]
-            if len(defs) < 2:
-                if len(defs) == 1 and defs[0][2] == 'stmt' and defs[0][3]['k'] == 'use' and defs[0][3]['op']['k'] in ('copy', 'move') and not defs[0][3]['op']['place']['proj']:
-                    local = defs[0][3]['op']['place']['local']
-                    continue
+            if not defs or len(defs) != len(b.assigns().get(local, [])):
                 return []
             by_bb = {}
             for d in defs:
                 by_bb.setdefault(d[0], []).append(d)
-            for pb in reversed(path):
-                if pb in by_bb:
-                    d = by_bb[pb][-1]
-                    if d[2] != 'stmt':
-                        return []
-                    rv = d[3]
-                    if rv['k'] == 'use' and rv['op']['k'] == 'const' and 'int' in rv['op']['c']:
-                        return 'infeasible' if bool(rv['op']['c']['int']) != truth else []
-                    if rv['k'] == 'use':
-                        return self._events_from_facts(U.bool_facts(b, rv['op'], truth))
-                    if rv['k'] == 'unop' and rv['op'] == 'Not':
-                        return self._events_from_facts(U.bool_facts(b, rv['arg'], not truth))
-                    return []
+            found = None
+            for pi in range(upto - 1, -1, -1):
+                if path[pi] in by_bb:
+                    found = (pi, by_bb[path[pi]][-1])
+                    break
+            if found is None:
+                return []
+            pi, d = found
+            if d[2] == 'call':
+                return self._events_from_facts([('bool', ('call', d[0], d[3]), truth)])
+            if d[2] != 'stmt':
+                return []
+            rv = d[3]
+            if rv['k'] == 'use' and rv['op']['k'] == 'const' and 'int' in rv['op']['c']:
+                return 'infeasible' if bool(rv['op']['c']['int']) != truth else []
+            if rv['k'] == 'use' and rv['op']['k'] in ('copy', 'move') and not rv['op']['place']['proj']:
+                local = rv['op']['place']['local']
+                upto = pi + 1
+                continue
+            if rv['k'] == 'unop' and rv['op'] == 'Not' and rv['arg'].get('k') in ('copy', 'move') and not rv['arg']['place']['proj']:
+                local = rv['arg']['place']['local']
+                truth = not truth
+                upto = pi + 1
+                continue
+            if rv['k'] == 'use':
+                return self._events_from_facts(U.bool_facts(b, rv['op'], truth))
+            if rv['k'] == 'binop':
+                return self._events_from_facts([('bool', ('rv', d[0], d[1], rv), truth)])
             return []
         return []
 
